@@ -14,6 +14,9 @@ use vstd::prelude::*;
 verus! {
 
 //@EXTRACT dispatch_id_enum
+impl DispatchId {
+//@EXTRACT dispatch_id_number
+}
 
 // ---- stand-ins
 /// std::result::Result::unwrap_or_else (not specified in vstd)
